@@ -49,6 +49,11 @@ def run(P, rep, tier):
 
     # after every *successful* commit the manifest on disk matches: it is written only after the container commit succeeded
     rep.attempt(c11.r2_manifest_after_commit, P, rep, ctx, "C10.R5")
+    # "the manifest on disk matches the hash recorded in its container": verified whenever the record is opened
+    # (subclass rule of C04.R3)
+    from . import c04
+
+    rep.attempt(c04.r3_subclass, P, rep, ctx)
     rep.floor("C10.R1", 6)
     rep.floor("C10.R2", 5)
     rep.floor("C10.R3", 3)
